@@ -2,8 +2,8 @@
    With unit mobility the velocity term of every used junction is the resultant b = M T of the tensions pulling on it (C13 places
    it in the junction's own rows); then (T, 0) solves the augmented system exactly, and an injective augmented matrix has no other
    non-negative minimiser.  The effect of the three-decimal rounding of b is used as a tolerance by harness/props/c03.py. *)
-From Coq Require Import List Reals.
-From Forsys Require Import Model.Num Model.Cert Proofs.CertProofs.
+From Coq Require Import List Reals QArith.
+From Forsys Require Import Model.Num Model.PyList Model.Cert Model.Tracking Proofs.CertProofs Proofs.TrackingProofs.
 Import ListNotations.
 
 Theorem C03_resultant_velocity_solves : forall (M : list (list R)) (T b : list R),
@@ -19,5 +19,22 @@ Theorem C03_unique_minimiser : forall n (A : list (list R)) (b z zs : list R),
   z = zs.
 Proof. exact zero_residual_minimiser_unique. Qed.
 
+(* unit mobility: a junction displaced by (elapsed time) x F has velocity F, for every elapsed time (unequal steps; negative at the
+   last frame, which looks back) and whatever id the other frame gives the vertex (q is what the tracking maps say) *)
+Theorem C03_unit_mobility_velocity_forward : forall frames maps p t ti vs0 x0 y0 tf vs1 q fx fy,
+  nth_error frames t = Some (ti, vs0) -> assoc vs0 p = Some (x0, y0) -> t <> (length frames - 1)%nat ->
+  nth_error frames (S t) = Some (tf, vs1) -> get_point_id_by_map maps p t (S t) = Found (Some q) ->
+  assoc vs1 q = Some ((x0 + (tf - ti) * fx)%Q, (y0 + (tf - ti) * fy)%Q) -> ~ (tf - ti == 0)%Q ->
+  exists vx vy, calculate_velocity frames maps p t = Some (vx, vy) /\ (vx == fx)%Q /\ (vy == fy)%Q.
+Proof. exact unit_mobility_velocity_forward. Qed.
+Theorem C03_unit_mobility_velocity_backward_last : forall frames maps p t ti vs0 x0 y0 tf vs1 q fx fy,
+  nth_error frames t = Some (ti, vs0) -> assoc vs0 p = Some (x0, y0) -> t = (length frames - 1)%nat ->
+  nth_error frames (t - 1) = Some (tf, vs1) -> get_point_id_by_map maps p t (t - 1) = Found (Some q) ->
+  assoc vs1 q = Some ((x0 + (tf - ti) * fx)%Q, (y0 + (tf - ti) * fy)%Q) -> ~ (tf - ti == 0)%Q ->
+  exists vx vy, calculate_velocity frames maps p t = Some (vx, vy) /\ (vx == fx)%Q /\ (vy == fy)%Q.
+Proof. exact unit_mobility_velocity_backward_last. Qed.
+
 Print Assumptions C03_resultant_velocity_solves.
 Print Assumptions C03_unique_minimiser.
+Print Assumptions C03_unit_mobility_velocity_forward.
+Print Assumptions C03_unit_mobility_velocity_backward_last.
